@@ -210,6 +210,14 @@ class Check:
         self.path_solver_time = 0.0
         self.extra = {}
         self.jobs = int(os.environ.get('VERIF_JOBS', '16'))
+        rdir = os.path.join(VERIF, 'evidence', 'replay')
+        if os.path.isdir(rdir) and not getattr(self, 'quiet', False) and _PARENT is None:
+            for fn in os.listdir(rdir):
+                if fn.startswith(pid + '_'):
+                    try:
+                        os.unlink(os.path.join(rdir, fn))
+                    except OSError:
+                        pass
 
     @property
     def thorough(self):
